@@ -216,6 +216,59 @@ fn exercise_record<'a>(t: &mut Transcript, api: &str, r: &ParsedRecord<'a, &'a [
                 let z = format!("{}", rec.display_zonefile(kind));
                 t.add(&z);
             }
+            // the accessors of the typed data that look into the RDATA again (lookups in type bitmaps, key tags ...):
+            // their answers agree with what iteration / the composed octets say
+            step("RecordData::accessors");
+            {
+                use domain::base::iana::Rtype as RT;
+                let probe = |t: &mut Transcript, bm: &domain::rdata::dnssec::RtypeBitmap<_>, what: &str| {
+                    let listed: Vec<u16> = bm.iter().map(|x| x.to_int()).collect();
+                    // (a bitmap with a window number twice or out of order is accepted by the reader; lookups then go by
+                    // the first window of that number: the answers are only compared for well-formed bitmaps)
+                    let judge = w::valid_bitmap(bm.as_slice());
+                    if !judge {
+                        for x in [1u16, 47, 255, 65535] {
+                            let _ = bm.contains(RT::from_int(x));
+                        }
+                        return;
+                    }
+                    for x in [1u16, 2, 6, 28, 46, 47, 48, 50, 255, 256, 257, 1234, 65280, 65534, 65535] {
+                        let c = bm.contains(RT::from_int(x));
+                        if c != listed.contains(&x) {
+                            t.closure_fail = Some((format!("closure:bitmap-contains:{}", what), format!("contains(TYPE{}) says {} but iteration lists {:?}", x, c, listed)));
+                        }
+                    }
+                    for x in listed.iter().take(40) {
+                        if !bm.contains(RT::from_int(*x)) {
+                            t.closure_fail = Some((format!("closure:bitmap-contains:{}", what), format!("iteration lists TYPE{} but contains() denies it", x)));
+                        }
+                    }
+                };
+                match rec.data() {
+                    AllRecordData::Nsec(n) => probe(t, n.types(), "NSEC"),
+                    AllRecordData::Nsec3(n) => probe(t, n.types(), "NSEC3"),
+                    AllRecordData::Dnskey(k) => {
+                        // RFC 4034 appendix B over the composed RDATA
+                        let mut rd = Vec::new();
+                        let _ = k.compose_rdata(&mut rd);
+                        let want = if k.algorithm().to_int() == 1 {
+                            if rd.len() >= 4 + 3 { u16::from_be_bytes([rd[rd.len() - 3], rd[rd.len() - 2]]) } else { k.key_tag() }
+                        } else {
+                            let mut ac: u32 = 0;
+                            for (i, b) in rd.iter().enumerate() {
+                                ac += if i & 1 == 0 { (*b as u32) << 8 } else { *b as u32 };
+                            }
+                            ac += (ac >> 16) & 0xFFFF;
+                            (ac & 0xFFFF) as u16
+                        };
+                        if k.key_tag() != want {
+                            t.closure_fail = Some(("closure:key-tag:DNSKEY".into(), format!("key_tag() gives {} for a key whose RDATA sums to {}", k.key_tag(), want)));
+                        }
+                        t.addf("keytag", k.key_tag());
+                    }
+                    _ => {}
+                }
+            }
             step("RecordData::rdlen/compose");
             let mut b = Vec::new();
             let _ = rec.data().compose_rdata(&mut b);
@@ -603,6 +656,9 @@ fn differential(octets: &[u8]) -> Option<(String, String)> {
 
 fn one_input(c: &mut Ctx, fam: &str, idx: u64, octets: &[u8], kind: &str) {
     ctx::slot_write(idx, &format!("{}|{}", fam, kind), octets);
+    // (an allocation of exactly the message's size: reading past the message leaves it)
+    let exact = ctx::exact(octets);
+    let octets: &[u8] = &exact;
     let ex = || json!({"input_hex": hex(octets), "kind": kind});
     let r1 = ctx::catch(|| read_all(octets, 0));
     let t1 = match r1 {
